@@ -59,7 +59,8 @@ def norm_closed(tbl):
 
 
 def random_table(rng):
-    bases = [':a', ':b', ':a-of', ':b-of', ':a-of-of', ':c', ':x-y', ':op[0-9]+', ':ARG[0-9]', ':s[0-9]', ':p-of[0-9]']
+    bases = [':a', ':b', ':a-of', ':b-of', ':a-of-of', ':c', ':x-y', ':op[0-9]+', ':ARG[0-9]', ':s[0-9]', ':p-of[0-9]',
+             ':q[0-9]-of', ':r[0-9]+-of']
     roles = rng.sample(bases, rng.randint(0, 5))
     cand = [':a', ':b', ':c', ':a-of', ':b-of', ':c-of', ':d', ':op1', ':a-of-of', ':ARG0-of', ':ARG1']
     norms = {}
